@@ -32,7 +32,8 @@ def main(argv: list[str]) -> int:
         import cwltool.main
 
         rc = cwltool.main.main(
-            ["--enable-ext", "--no-container", "--outdir", outdir, cwl, job], stdout=buf
+            ["--enable-ext", "--no-container", "--disable-js-validation", "--eval-timeout", "600",
+             "--outdir", outdir, cwl, job], stdout=buf
         )
     elif mode == "prov":
         sf_file, outdir, name, archive = argv[1:5]
